@@ -76,6 +76,7 @@ type FnRun struct {
 	iters     map[ssa.Value]SliceV
 	loopPhis  map[string]*ssa.Phi
 	loopEntryState *State
+	callOrdinal int
 }
 
 type retPoint struct {
